@@ -91,8 +91,12 @@ def margins(P):
 # ---------------------------------------------------------------------------------------------- L3 suite
 def rowwise_suite(chk, key, fam, est, A, rng, replay, proba=True, tolscale=1.0):
     """the property on the implementation: rows of predict(_proba)(A[r]) are rows r of predict(_proba)(A)"""
-    L = np.asarray(est.predict(A))
-    P = np.asarray(est.predict_proba(A)) if proba else None
+    try:
+        L = np.asarray(est.predict(A))
+        P = np.asarray(est.predict_proba(A)) if proba else None
+    except Exception as e:  # noqa
+        chk.fail(key + ":raises", f"predict / predict_proba of a valid {A.shape} array raised {type(e).__name__}: {e}", replay, layer="L3")
+        return None, None, False
     ok = True
     if L.shape != (len(A),) or (proba and (P.ndim != 2 or P.shape[0] != len(A))):
         chk.fail(key + ":shape", f"predict/predict_proba of {len(A)} rows returned shapes {L.shape}/{None if P is None else P.shape}", replay, layer="L3")
@@ -104,15 +108,20 @@ def rowwise_suite(chk, key, fam, est, A, rng, replay, proba=True, tolscale=1.0):
         mg = margins(P)
     for kind, r in index_maps(rng, len(A)):
         Ar = np.ascontiguousarray(A[r])
-        Lr = np.asarray(est.predict(Ar))
         rp = dict(replay, selection=kind, r=r)
+        try:
+            Lr = np.asarray(est.predict(Ar))
+            Pr = np.asarray(est.predict_proba(Ar)) if proba else None
+        except Exception as e:  # noqa
+            chk.fail(f"{key}:{kind}:raises", f"predict / predict_proba of {len(r)} selected rows raised {type(e).__name__}: {e}", rp, layer="L3")
+            ok = False
+            continue
         if Lr.shape != (len(r),):
             chk.fail(f"{key}:{kind}:shape", f"predict of {len(r)} selected rows returned shape {Lr.shape}", rp, layer="L3")
             ok = False
             continue
         bad = np.nonzero(Lr != L[r])[0]
         if proba:
-            Pr = np.asarray(est.predict_proba(Ar))
             if Pr.shape != (len(r), P.shape[1]):
                 chk.fail(f"{key}:{kind}:shape", f"predict_proba of {len(r)} selected rows returned shape {Pr.shape}", rp, layer="L3")
                 ok = False
@@ -131,11 +140,14 @@ def rowwise_suite(chk, key, fam, est, A, rng, replay, proba=True, tolscale=1.0):
 
 def train_labels(chk, key, est, X, L, P, replay):
     lab = np.asarray(est.labels_)
+    if lab.shape != L.shape:
+        chk.fail(key + ":train-labels", f"predict(X_train) has shape {L.shape}, labels_ {lab.shape}", replay, layer="L3")
+        return
     bad = np.nonzero(lab != L)[0]
     if P is not None:
         mg = margins(P)
         bad = [b for b in bad if mg[b] > MARGIN]
-    if lab.shape != L.shape or len(bad):
+    if len(bad):
         chk.fail(key + ":train-labels", f"predict(X_train) does not reproduce labels_ (rows {list(map(int, bad))[:5]})", replay, layer="L3")
 
 
@@ -211,7 +223,7 @@ def stream_gradient(chk, i, rng):
     if Pt is not None:
         train_labels(chk, key, est, X, Lt, Pt, replay)
     Ln, Pn, _ = rowwise_suite(chk, key + ":fresh", fam, est, Xn, rng, dict(replay, array="fresh", m=len(Xn)))
-    if Pt is None or Pn is None:
+    if Pt is None or Pn is None or Pt.shape != (n, K) or Pn.shape != (len(Xn), K):
         chk.count(None)
         return
     if H0 is not None and not (est.H_.shape == H0.shape and np.array_equal(est.H_, H0)):
@@ -310,7 +322,9 @@ def stream_krim(chk, i, rng):
         # the hypothesis made on the oracle in C18_kernel_rim_rowwise, spot-checked
         r = rng.integers(0, len(A), size=len(A) + 2).tolist()
         Kr = np.asarray(est._compute_kernel(np.ascontiguousarray(A[r])))
-        if np.max(np.abs(Kr - Kw[r])) > 1e-12 * (1 + np.abs(Kw).max()):
+        if Kr.shape != (len(r), n):
+            chk.fail(key + ":kernel-shape", f"_compute_kernel of {len(r)} rows has shape {Kr.shape}, expected ({len(r)}, {n})", dict(replay, array=tag, r=r), layer="L3")
+        elif np.max(np.abs(Kr - Kw[r])) > 1e-12 * (1 + np.abs(Kw).max()):
             chk.fail(key + ":oracle-rowwise", "the kernel oracle itself is not row-wise on this input", dict(replay, array=tag, r=r), layer="L3")
     Lt, Pt, _ = rowwise_suite(chk, key + ":train", "krim", est, X, rng, dict(replay, array="train"), tolscale=kscale)
     Ln, Pn, _ = rowwise_suite(chk, key + ":fresh", "krim", est, Xn, rng, dict(replay, array="fresh", m=len(Xn)), tolscale=kscale)
